@@ -1001,6 +1001,12 @@ func (x *tr) assign(lhs ast.Expr, tok token.Token, rhs string, ind string) strin
 			n := x.ident(id.Name)
 			return "let " + n + " := { " + n + " with " + x.ident(l.Sel.Name) + " := " + rhs + " }\n" + ind
 		}
+	case *ast.IndexExpr:
+		// `xs[i] = e` on a slice held in a variable
+		if id, ok := l.X.(*ast.Ident); ok && tok == token.ASSIGN && !x.isSet(l.X) {
+			n := x.ident(id.Name)
+			return "let " + n + " := (GoLib.setAt " + n + " " + x.expr(l.Index) + " " + rhs + ")\n" + ind
+		}
 	}
 	return x.errf("assignment target %s", x.src(lhs))
 }
@@ -1109,12 +1115,21 @@ func (x *tr) rangeLoop(v *ast.RangeStmt, rest []ast.Stmt, fall, ind string) stri
 		elem = x.ident(v.Value.(*ast.Ident).Name)
 	}
 	keysOnly := false
+	idxRange := "" // `for i, e := range xs`: the Lean name of `i`
 	if v.Key != nil {
 		if id, ok := v.Key.(*ast.Ident); !ok || id.Name != "_" {
 			if ok && v.Value == nil && x.t.MapRange {
 				// `for k := range m` over a Go map (the target says so): the keys, in the order of the view
 				elem = x.ident(id.Name)
 				keysOnly = true
+			} else if ok && v.Value != nil {
+				// `for i, e := range xs`: the pairs (index, element) in order
+				if val, isId := v.Value.(*ast.Ident); isId {
+					idxRange = x.ident(id.Name)
+					_ = val
+				} else {
+					return x.errf("range value %s", x.src(v.Value))
+				}
 			} else {
 				return x.errf("range with index variable")
 			}
@@ -1128,7 +1143,7 @@ func (x *tr) rangeLoop(v *ast.RangeStmt, rest []ast.Stmt, fall, ind string) stri
 	if elem != "_" { // the range variable itself may be re-bound in the body (value copy): never loop state
 		k := 0
 		for _, n := range vars {
-			if n != elem {
+			if n != elem && n != idxRange {
 				vars[k] = n
 				k++
 			}
@@ -1140,6 +1155,9 @@ func (x *tr) rangeLoop(v *ast.RangeStmt, rest []ast.Stmt, fall, ind string) stri
 		// so the target has to say so); the loop then rebuilds the slice, element by element, in the state `acc'`
 		if !x.t.MutRange {
 			return x.errf("write to a field of the range variable %s (target not marked MutRange)", elem)
+		}
+		if idxRange != "" {
+			return x.errf("MutRange with an index variable")
 		}
 		sl, isId := v.X.(*ast.Ident)
 		if !isId {
@@ -1174,7 +1192,12 @@ func (x *tr) rangeLoop(v *ast.RangeStmt, rest []ast.Stmt, fall, ind string) stri
 	if x.inLoop {
 		retArm = "GoLib.Step.ret r'"
 	}
-	return "match GoLib.forRange " + rangeX + " " + st + " (fun " + elem + " " + lamPat(st) + " =>\n" + ind2 + body + ") with\n" +
+	elemPat := elem
+	if idxRange != "" {
+		rangeX = "(GoLib.enum " + rangeX + ")"
+		elemPat = "(" + idxRange + ", " + elem + ")"
+	}
+	return "match GoLib.forRange " + rangeX + " " + st + " (fun " + elemPat + " " + lamPat(st) + " =>\n" + ind2 + body + ") with\n" +
 		ind + "| .ret r' => " + retArm + "\n" +
 		ind + "| .done " + lamPat(st) + " =>\n" + ind + "  " + after
 }
